@@ -81,6 +81,59 @@ async def scenario(starts, mode):
     return None
 
 
+async def scenario_3phase(lags, max_size):
+    """The real FormulaEngine3Phase over three real single-metric FormulaEngines.  All phases START on the same
+    timestamp (phases starting on different timestamps are the known finding C06-3phase-unaligned-start and are not
+    generated here); phase i is DELIVERED lags[i] steps behind; the consumer subscribes with buffer size max_size and
+    reads concurrently.  Every 3-phase sample stamped T must carry the three phase values stamped T, none skipped."""
+    from frequenz.channels import Broadcast
+    from frequenz.quantities import Quantity
+    from frequenz.sdk.timeseries import Sample
+    from frequenz.sdk.timeseries.formula_engine._formula_engine import FormulaBuilder, FormulaEngine3Phase
+    chans = [Broadcast(name=f"ph{i}") for i in range(3)]
+    engines = []
+    for i, ch in enumerate(chans):
+        b = FormulaBuilder(f"phase{i}", Quantity)
+        b.push_metric(f"m{i}", ch.new_receiver(limit=50), nones_are_zeros=False)
+        engines.append(b.build())
+    eng = FormulaEngine3Phase("explore3", Quantity, tuple(engines))
+    out = eng.new_receiver(max_size=max_size)
+    senders = [ch.new_sender() for ch in chans]
+    got = []
+
+    async def consume():
+        async for s in out:
+            got.append(s)
+
+    consumer = asyncio.create_task(consume())
+    for _ in range(5):
+        await asyncio.sleep(0)
+    n = 6
+    for tick in range(n + max(lags)):
+        for i in range(3):
+            step = tick - lags[i]
+            if 0 <= step < n:
+                await senders[i].send(Sample(T0 + timedelta(seconds=step), Quantity(val(i, step))))
+                for _ in range(12):     # one sample at a time: engine, 3-phase task and consumer all get to run
+                    await asyncio.sleep(0)
+    for _ in range(40):
+        await asyncio.sleep(0)
+    consumer.cancel()
+    await eng._stop()  # pylint: disable=protected-access
+    for e in engines:
+        await e._stop()  # pylint: disable=protected-access
+    stamps = [int((s.timestamp - T0).total_seconds()) for s in got]
+    if stamps != list(range(n)):
+        return f"3-phase samples stamped steps {stamps} were emitted, demanded {list(range(n))} (none skipped, in order)"
+    for s, step in zip(got, stamps):
+        vals = [None if v is None else v.base_value for v in (s.value_p1, s.value_p2, s.value_p3)]
+        want = [val(i, step) for i in range(3)]
+        if vals != want:
+            return (f"3-phase sample stamped step {step} carries {vals}; the phase samples stamped step {step} are {want} "
+                    f"(each value = 1000*(phase+1) + step)")
+    return None
+
+
 def run(req):
     logging.disable(logging.CRITICAL)
     t0 = time.time()
@@ -97,12 +150,23 @@ def run(req):
         if f:
             failure = (f, {"first_steps": list(starts), "delivery": mode})
             break
+    for lags, max_size in [(l, m) for l in itertools.product((0, 1, 4), repeat=3) for m in (1, 2, 50)]:
+        if failure:
+            break
+        evaluations += 1
+        try:
+            f = asyncio.run(scenario_3phase(lags, max_size))
+        except Exception as e:  # pylint: disable=broad-except
+            f = f"3-phase scenario raised {type(e).__name__}: {e}"
+        if f:
+            failure = (f, {"three_phase_delivery_lags": list(lags), "consumer_max_size": max_size})
     logging.disable(logging.NOTSET)
     out = {"status": "failed" if failure else "ok", "evaluations": evaluations, "distinct": evaluations, "known": {},
            "samples": samples, "wall_s": round(time.time() - t0, 1), "exhaustive": failure is None,
            "rule": "formula m0 + m1 + m2 on three streams; all 64 combinations of first steps 0..3 x 4 delivery modes "
                    "(pre-buffered, interleaved with loop iterations, burst per step, consumer subscribing after the data); "
-                   "8 steps per stream; all cases distinct"}
+                   "8 steps per stream; plus the 3-phase engine over three single-metric engines with a common first "
+                   "timestamp: 27 delivery lags (0/1/4 steps per phase) x consumer buffer sizes 1/2/50, 6 steps; all cases distinct"}
     if failure:
         out["failure"] = {"clause": "every sample is computed from inputs of its own timestamp; timestamps consecutive", "detail": failure[0]}
         out["inputs"] = failure[1]
